@@ -744,6 +744,7 @@ func famCodec(dir string, seed int64, tier string) {
 	}
 
 	apiHugeBlob(repDec)
+	apiEndedStreamsAndSinkMarshal(repEnc, r)
 	apiLongStreamReaders(repDec, r)
 	wEnc.flush()
 	wWf.flush()
